@@ -5,6 +5,7 @@ CONSTANTS
 VIEW View
 INVARIANT TypeOK
 PROPERTY OversizeAnswered
+PROPERTY OversizeInCopy
 PROPERTY OversizeBeforeSessionCloses
 PROPERTY FitsProcessed
 ACTION_CONSTRAINT Cover
